@@ -137,6 +137,44 @@ func (h *c07h) finish(out string, jobs []*c07job) error {
 			}
 		}
 	}
+	whoCoq := func(l []string, failed bool) string {
+		it := make([]string, len(l))
+		for i, w := range l {
+			it[i] = map[string]string{"script": "WScript", "host": "WHost", "both": "WBoth", "none": "WNone"}[w]
+		}
+		return "(" + coqList(it) + ", " + coqBool(failed) + ")"
+	}
+	for _, j := range jobs {
+		for _, d := range j.disps {
+			next++
+			d.ID = next
+			lay := map[string]string{"only": "LOnly", "first": "LFirst", "last": "LLast"}[d.f.layout]
+			facts := fmt.Sprintf("{| ef_ptr := %s; ef_layout := %s; ef_implements := %s; ef_nummeth := %s; ef_real := %s |}",
+				coqBool(d.f.ptr), lay, coqBool(d.f.implements), coqBool(d.f.nummeth), coqBool(d.f.real))
+			byKind["disp"] = append(byKind["disp"], fmt.Sprintf("(%d%%N, %s, %s, %s, %s, %s, %s)", d.ID, facts, coqStrList(d.e.over), coqBool(d.e.delegate),
+				coqStrList(d.e.iface.methods), whoCoq(d.impl, d.failed), whoCoq(d.inscript, d.infail)))
+			sm.ImplComparisons++
+			sm.RefComparisons++
+			sm.count("case:disp")
+			if d.region != "" {
+				sm.count("region:" + d.region)
+			}
+			info := map[string]any{"kind": "disp", "region": d.region}
+			for _, k := range []string{"stream", "iface", "embed", "layout", "overrides", "delegate", "pointer-receiver", "by-pointer", "pass"} {
+				info[k] = d.input[k]
+			}
+			sm.CaseIndex[fmt.Sprint(d.ID)] = info
+			g := d.e.gDispatch()
+			if d.failed || fmt.Sprint(d.impl) != fmt.Sprint(g) {
+				in := map[string]any{"script": d.input["script"]}
+				for k, v := range info {
+					in[k] = v
+				}
+				sm.RefMismatches = append(sm.RefMismatches, refMismatch{ID: d.ID, Region: d.region, Input: in,
+					Impl: map[string]any{"ran": d.impl, "failed": d.failed}, Ref: map[string]any{"ran": g, "in-script": d.inscript}, Note: "which implementation ran each method the host called"})
+			}
+		}
+	}
 	for _, j := range jobs {
 		for _, m := range j.other {
 			next++
@@ -145,8 +183,8 @@ func (h *c07h) finish(out string, jobs []*c07job) error {
 		}
 	}
 	hdr := "From Verif Require Import Lib.Str Boundary.Types Boundary.Marshal Boundary.Cases.\n"
-	per := map[string]int{"arg": 120, "res": 150, "var": 200, "meth": 400, "wrap": 2000}
-	for _, k := range []string{"arg", "res", "var", "meth", "wrap"} {
+	per := map[string]int{"arg": 120, "res": 150, "var": 200, "meth": 400, "wrap": 2000, "disp": 2000}
+	for _, k := range []string{"arg", "res", "var", "meth", "wrap", "disp"} {
 		cases := byKind[k]
 		for i, n := 0, 0; i < len(cases); i, n = i+per[k], n+1 {
 			e := i + per[k]
